@@ -10,6 +10,7 @@ package light
 // (goroutine states read from runtime.Stack), with a long timeout that ends the trace inconclusive.
 
 import (
+	"os"
 	"bytes"
 	"context"
 	"errors"
@@ -53,12 +54,15 @@ const (
 	c09KTooHighForkLate
 	// primary only: honest below, no block at the height under the top ("not found": a bisection pivot cannot be fetched), unverifiable garbage at the top
 	c09KGarbageTopGap
+	// primary only: the (verifiable) equivocation fork at the top, half-signed headers at the heights between root and top: a
+	// bisection pivot is invalid (not merely untrusted), the primary is replaced, and the forged top has to survive the witnesses once more
+	c09KEquivTopGarbagePivot
 	c09NKinds
 )
 
 var c09KindNames = []string{"honest", "equivocation-fork", "garbage", "no-response", "not-found", "too-high-then-catches-up",
 	"bad-block-error", "lunatic-fork", "half-signed", "too-high-stays-behind", "other-error", "forged-pivots(verifiable)", "forged-pivots(garbage)", "too-high-then-serves-fork",
-	"too-high-catches-up-during-the-wait", "too-high-serves-fork-after-the-wait", "garbage-top-with-missing-pivot"}
+	"too-high-catches-up-during-the-wait", "too-high-serves-fork-after-the-wait", "garbage-top-with-missing-pivot", "forged-top(verifiable)-with-invalid-pivots"}
 
 type c09CCase struct {
 	Pattern int     `json:"pattern"`
@@ -139,6 +143,11 @@ func (p *c09Prov) view(h int64) *c09Desc {
 			return p.w.Blocks[c09FamGarbage][h]
 		}
 		return hon
+	case c09KEquivTopGarbagePivot:
+		if h == int64(p.w.H) {
+			return p.w.Blocks[c09FamEquiv][h]
+		}
+		return p.w.Blocks[c09FamWeak][h] // right validator sets, commit signed by half of the power: ErrInvalidHeader at the pivot
 	case c09KGarbageTopGap:
 		if h == int64(p.w.H) {
 			return p.w.Blocks[c09FamGarbage][h]
@@ -153,7 +162,7 @@ func (p *c09Prov) view(h int64) *c09Desc {
 
 func (p *c09Prov) pureView() bool {
 	switch p.kind {
-	case c09KHonest, c09KTooHighCatch, c09KTooHighFork, c09KTooHighCatchLate, c09KTooHighForkLate, c09KGarbageTopGap, c09KEquiv, c09KGarbage, c09KLunatic, c09KWeak, c09KEquivPivot, c09KGarbagePivot:
+	case c09KHonest, c09KTooHighCatch, c09KTooHighFork, c09KTooHighCatchLate, c09KTooHighForkLate, c09KGarbageTopGap, c09KEquiv, c09KGarbage, c09KLunatic, c09KWeak, c09KEquivPivot, c09KGarbagePivot, c09KEquivTopGarbagePivot:
 		return true
 	}
 	return false
@@ -655,6 +664,9 @@ func (e *c09CEnv) runTrace(cs c09CCase) (res c09TraceResult) {
 			return
 		}
 		res.Outcome += fmt.Sprintf("|%s:%s", c09Mode(target), c09ErrClass(err))
+		if err != nil && os.Getenv("C09_DEBUG") != "" {
+			res.Outcome += "{" + err.Error() + "}"
+		}
 		st = e.dumpStore(cl, w.H)
 		if k, what := e.judge(cs, w, s, cl, provs, params, before, st, err, servedFrom, evFrom, name, &res); k != "" {
 			res.Key, res.What = k, fmt.Sprintf("call %d %s: %s", ci+1, name, what)
@@ -1055,6 +1067,9 @@ func TestVerifC09Client(t *testing.T) {
 		if k, w, _ := runOne(rc, true); k != "" {
 			r.Violation(k, w, rc)
 		}
+		if os.Getenv("C09_DEBUG") != "" {
+			r.Cap(fmt.Sprintf("debug: outcome=%s sched=%v calls=%d", lastRes.Outcome, lastRes.Sched, lastRes.Calls))
+		}
 		return
 	}
 	k, mine := 0, 0
@@ -1133,7 +1148,7 @@ func TestVerifC09Client(t *testing.T) {
 	if thorough {
 		modes = append(modes, modeT{2, 2, 3})
 	}
-	primaries := []int{c09KHonest, c09KEquiv, c09KLunatic, c09KGarbage, c09KEquivPivot, c09KGarbagePivot, c09KNotFound, c09KTooHighBehind, c09KBadBlock, c09KGarbageTopGap}
+	primaries := []int{c09KHonest, c09KEquiv, c09KLunatic, c09KGarbage, c09KEquivPivot, c09KGarbagePivot, c09KNotFound, c09KTooHighBehind, c09KBadBlock, c09KGarbageTopGap, c09KEquivTopGarbagePivot}
 	witMenu3 := []int{c09KHonest, c09KEquiv, c09KGarbage, c09KNoResponse, c09KNotFound, c09KTooHighCatch, c09KBadBlock}
 	witMenu := append(append([]int{}, witMenu3...), c09KTooHighBehind, c09KTooHighFork, c09KTooHighCatchLate, c09KTooHighForkLate)
 	if thorough {
